@@ -300,6 +300,8 @@ Inductive spec_desc_case := SpecDesc (files : list sfile) (obs : list dfile).
 Definition spec_desc_chk (c : spec_desc_case) : bool :=
   match c with
   | SpecDesc fs obs =>
+    (* the property speaks about file sets that both compilers accept *)
+    negb (spec_accepts fs) ||
     (fix go (rs : list (option dfile)) (os : list dfile) {struct rs} : bool :=
        match rs, os with
        | [], [] => true
@@ -330,3 +332,21 @@ Definition c02_spec_part (c : c02_case) : bool :=
 (* a descriptor difference is excused only by the documented synthetic-oneof divergence *)
 Definition c02_excused_part (c : c02_case) : bool :=
   match c with C02Case fs obs => negb (existsb div_synth_oneof fs) end.
+
+(* the naming functions on arbitrary ASCII strings: observed JSONName / MapEntry against the
+   mirror and against protoc's ToJsonName / MapEntryName *)
+Inductive name_case := NameCase (s js entry : list N).
+Definition name_chk (c : name_case) : bool :=
+  match c with NameCase s js en => name_eqb (json_name s) js && name_eqb (map_entry s) en end.
+Definition name_spec_chk (c : name_case) : bool :=
+  match c with NameCase s js en => name_eqb (to_json_name s) js && name_eqb (map_entry_name s) en end.
+Definition name_full_chk (c : name_case) : bool := name_chk c && name_spec_chk c.
+
+(* second pass of the plugins over the few cases where the combined check fails: one evaluation
+   that asks the three questions separately *)
+Inductive c01_probe := P1Model (c : c01_case) | P1Spec (c : c01_case) | P1Exc (c : c01_case).
+Definition c01_probe_chk (p : c01_probe) : bool :=
+  match p with P1Model c => c01_chk c | P1Spec c => c01_spec_part c | P1Exc c => c01_excused_part c end.
+Inductive c02_probe := P2Model (c : c02_case) | P2Spec (c : c02_case) | P2Exc (c : c02_case).
+Definition c02_probe_chk (p : c02_probe) : bool :=
+  match p with P2Model c => c02_chk c | P2Spec c => c02_spec_part c | P2Exc c => c02_excused_part c end.
